@@ -62,19 +62,36 @@ WITNESSES = [
     # the FILE-SYSTEM ROOT -- only run against a tree that has the repair
     W("split-mode-root-module", {"p0.proto": 'syntax = "proto3";\nmessage Root {\n  int32 x = 1;\n  Leaf l = 2;\n}\nmessage Leaf {\n  string s = 1;\n}\n'},
       r"include!|No such file|couldn't read", cfg=dict(mode="split", keep=0, cc=1, iu=0), kind="pb", entry="p0.proto"),
+    # protobuf type names are qualified from the package root, but Resolver::lower_path searched the innermost block first: a oneof
+    # / nested message of an ENCLOSING message called like a top-level message captured the name (F-14w; repeated -> unreachable!() in
+    # codegen_merge_field, singular -> the wrong type: E0277 / E0599, or no diagnostic at all)
+    W("proto-type-name-shadowed-by-nested-item",
+      {"p0.proto": 'syntax = "proto3";\npackage a;\nmessage U {\n  string leaf = 1;\n}\nmessage EAW {\n  message Leaf {\n    repeated .a.U r = 1;\n  }\n'
+                   '  oneof U {\n    int32 user = 3;\n    string s = 4;\n  }\n}\n'}, r"PANIC internal error: entered unreachable code", kind="pb", entry="p0.proto"),
+    W("proto-type-name-shadowed-by-nested-item",
+      {"p0.proto": 'syntax = "proto3";\npackage a;\nmessage U {\n  string leaf = 1;\n}\nmessage EAW {\n  message Leaf {\n    .a.U r = 1;\n  }\n'
+                   '  oneof U {\n    int32 user = 3;\n    string s = 4;\n  }\n}\n'}, r"E0277|E0599|E0308", kind="pb", entry="p0.proto"),
+    # a set literal (or [] for an empty map) nested in a const container had no lowering arm (F-14x)
+    W("const-nested-set-literal", {"main.thrift": "namespace rs w\nconst list<set<i64>> SETTLE = [[], [-2401851961459905852], [7, 0]]\n"},
+      r"PANIC unexpected literal"),
+    W("const-nested-set-literal", {"main.thrift": 'namespace rs w\nconst map<i32, set<string>> MS = {1: ["a", "b"], 2: []}\n'}, r"PANIC unexpected literal"),
+    # a list nested in a const list was typed as an array of length 0 (F-14y)
+    W("const-nested-list-literal", {"main.thrift": "namespace rs w\nconst list<list<i32>> LL = [[1], [2, 3], []]\n"}, r"E0308"),
     W("enum-default-through-typedef", {"main.thrift": "namespace rs w\nenum E { A = 1 }\ntypedef E Te\nstruct S { 1: Te e = E.A }\n"}, r"PANIC invalid convert"),
     W("type-named-like-generic-parameter", {"main.thrift": "namespace rs w\nunion T { 1: i32 a, 2: string b }\n"}, r"E0599|E0277"),
     W("type-named-like-generic-parameter", {"p0.proto": 'syntax = "proto3";\npackage w;\nmessage B {\n  int32 x = 1;\n  B next = 2;\n}\n'},
       r"E0599|E0277|E0308|E0107", kind="pb", entry="p0.proto"),
     W("const-named-like-keyword", {"main.thrift": "namespace rs w\nconst double in = 1.5\n"}, r"expected identifier, found keyword",
       cfg=dict(mode="single", keep=0, cc=0, iu=0)),
-    W("value-item-named-like-local-binding", {"main.thrift": "namespace rs w\ntypedef i8 v\ntypedef i8 V\n"}, r"E0530"),
+    W("value-item-named-like-local-binding", {"main.thrift": "namespace rs w\ntypedef i8 v\ntypedef i8 V\n"},
+      r"E0530|interpreted as a constant"),  # E0308 `v` is interpreted as a constant, not a new binding: a `let v = ...` of the emitted code
     W("proto-recursive-oneof-member", {"p0.proto": 'syntax = "proto3";\npackage w;\nmessage Tree {\n  oneof node {\n    double d = 1;\n    Tree t = 2;\n  }\n}\n'},
       r"E0308", kind="pb", entry="p0.proto"),
     W("conversion-not-idempotent-collision", {"main.thrift": "namespace rs w\nstruct AB { 1: i32 a }\nstruct Ab { 1: i32 a }\nstruct aB { 1: i32 a }\n"}, r"E0428"),
     W("service-name-underscore-digit", {"main.thrift": "namespace rs w\nservice _1 { i32 K(1: i32 a) }\n"}, r"exit 1|expected type"),
 ]
 FINDING_IDS = {  # class -> id in known_findings.json
+    "proto-type-name-shadowed-by-nested-item": "F-14w", "const-nested-set-literal": "F-14x", "const-nested-list-literal": "F-14y",
     "split-mode-root-module": "F-14f", "union-only-by-value-cycle": "F-14b", "path-keyword-suffix-collision": "F-14c", "related-path-target-is-prefix": "F-14d",
     "lone-underscore-identifier": "F-14e", "container-literal-inside-container-literal": "F-14g", "uuid-not-a-direct-field": "F-14h",
     "const-of-set-type": "F-14i", "item-shadows-prelude-name": "F-14j", "btree-container-of-double": "F-14k",
@@ -212,6 +229,73 @@ def classes_of(doc, scopes, names, cfg, ucyc):
                     # local bindings of the emitted code are snake_case: only an all-lower-case value item can clash
                     cls.add("value-item-named-like-local-binding")
     return cls
+
+
+def const_literal_classes(doc):
+    """classes F-14x / F-14y, decided on the types of the document's consts: a set (or a map, whose empty literal is `[]`) below the
+    top of the type; a list directly inside a list"""
+    cls = set()
+
+    def walk(t, top, in_list):
+        k = t[0]
+        if k == "set":
+            if not top:
+                cls.add("const-nested-set-literal")
+            walk(t[1], False, False)
+        elif k == "map":
+            if not top:
+                cls.add("const-nested-set-literal")     # `[]` for an empty map below the top takes the same missing arm
+            walk(t[1], False, False)
+            walk(t[2], False, False)
+        elif k == "list":
+            if in_list:
+                cls.add("const-nested-list-literal")
+            walk(t[1], False, True)
+    for f in doc.files:
+        for it in f["items"]:
+            if it["kind"] == "const":
+                walk(it["ty"], True, False)
+    return cls
+
+
+def proto_shadow_class(files):
+    """class F-14w, decided on the text of a generated protobuf document (layout of bldgen.ProtoGen): a type name `.pkg.X...` used inside
+    a message whose enclosing messages (for a oneof member: the message itself too) have a oneof / nested message / nested enum called X"""
+    for text in files.values():
+        pkg = re.search(r"^package ([\w.]+);", text, flags=re.M)
+        pkg = pkg.group(1) if pkg else ""
+        stack, nested = [], {}          # stack of (kind, name); nested[path of message] = names of its nested items
+        lines = text.split("\n")
+        for ln in lines:                # pass 1: nested item names per message
+            t = ln.strip()
+            m = re.match(r"^(message|enum|oneof|service) (\w+) \{", t)
+            if m:
+                owner = tuple(n for k, n in stack if k == "message")
+                if owner and m.group(1) != "service":
+                    nested.setdefault(owner, set()).add(m.group(2))
+                stack.append((m.group(1), m.group(2)))
+            elif t.startswith("}"):
+                stack.pop()
+        stack = []
+        for ln in lines:                # pass 2: uses
+            t = ln.strip()
+            m = re.match(r"^(message|enum|oneof|service) (\w+) \{", t)
+            if m:
+                stack.append((m.group(1), m.group(2)))
+                continue
+            if t.startswith("}"):
+                stack.pop()
+                continue
+            if not stack or stack[-1][0] not in ("message", "oneof"):
+                continue
+            chain = [n for k, n in stack if k == "message"]
+            scopes = [tuple(chain[:i]) for i in range(1, len(chain) + (1 if stack[-1][0] == "oneof" else 0))]
+            for name in re.findall(r"(?<![\w.])\.([A-Za-z_][\w.]*)", t.split("=")[0]):
+                rest = name[len(pkg) + 1:] if pkg and name.startswith(pkg + ".") else name
+                first = rest.split(".")[0]
+                if any(first in nested.get(sc, ()) for sc in scopes):
+                    return {"proto-type-name-shadowed-by-nested-item"}
+    return set()
 
 
 FIELD_RE = re.compile(r"^\s*pub ([A-Za-z_#][A-Za-z0-9_#]*):\s*(.*?),?\s*$")
@@ -515,6 +599,11 @@ def run(chk, replay=None):
                 sc = dict(docs_scopes)[di]
                 nn = {lab: names[c["cc"]].get((di, lab), []) for lab, _ in sc}
                 cls = classes_of(d["doc"], sc, nn, c, ucyc.get(di) == "1")
+                cls |= const_literal_classes(d["doc"])
+            else:
+                cls = proto_shadow_class(d["files"])
+            # a class whose entry is `fixed` (or absent) does not set a document apart: it is compiled with the others
+            cls = {k for k in cls if chk.known_finding(k) is not None}
             (quarantined if cls else clean).append((di, d, c, cls))
 
     def build_clean(job):
